@@ -5,6 +5,7 @@
 -/
 import Miden.Model.Exec
 import Miden.Model.Mast
+import Miden.Model.Options
 namespace Miden
 
 def joinNats (l : List Nat) : String := ",".intercalate (l.map toString)
@@ -157,6 +158,10 @@ def handle (line : String) : String :=
     match parseOps rest with
     | some ops => s!"rows {joinNats ((spanRows ops).map Op.code)}"
     | none => "bad-request"
+  | ["options", m, e] =>
+    match execOptionsNew (if m == "none" then none else m.toNat?) (e.toNat?.getD 0) with
+    | some (mx, ex) => s!"ok max={mx} expected={ex}"
+    | none => "refused"
   | ["merge", a, b, d] =>
     s!"digest {joinNats (Rpo.mergeInDomain (parseNats a) (parseNats b) (d.toNat?.getD 0))}"
   | ["permute", s] => s!"state {joinNats (Rpo.permute (parseNats s))}"
